@@ -3,7 +3,7 @@ import itertools
 import collections
 from .. import model, sweep, lcfrs
 from ..runner import Result
-from ..bridge import T, build, quiet, build_via_export, extract, monitor
+from ..bridge import T, build, quiet, build_via_export, extract, monitor, build_any
 from ..runner import scratch
 
 from trees import grammar, grammaranalysis, transform
@@ -56,6 +56,9 @@ def label_variants(sh, dev):
     root = model.decorate(sh, lambda p, s: 'VROOT')
     yield model.MT(1, model.mk_tokens(n, words=['w%d' % (i % 2) for i in range(n)],
                                       pos=[['VROOT', 'EMPTY', 'x'][i % 3] for i in range(n)]), root)
+    # words that differ only in Unicode normalisation are different words
+    yield model.MT(1, model.mk_tokens(n, words=[['caf\u00e9', 'cafe\u0301', '\u212b', '\u00c5'][i % 4] for i in range(n)],
+                                      pos=['x'] * n), model.decorate(sh, lambda p, s: 'A'))
 
 
 def norm(g):
@@ -94,6 +97,10 @@ def check_bank(mtjs, order=None):
             mts = [extract(t) for t in live]
             for t in live:
                 grammar.extract(t, g, lex)
+        elif order == 'written':
+            # tree objects that were written once (constituents carry export numbers) and are extracted afterwards
+            for mt in mts:
+                ret = grammar.extract(build_any(mt, 'written'), g, lex)
         elif order == 'collapse':
             # trees restructured in place by another transformation before extraction
             live = [transform.collapse_unary_chains(build(mt)) for mt in mts]
@@ -169,7 +176,7 @@ def run_chunk(chunk):
         if chunk['kind'] == 'single':
             for sh, k in sweep.iter_shapes(chunk):
                 for mt in label_variants(sh, chunk['dev']):
-                    for order in (None, 'rev', 'export+raise') + (('collapse',) if k else ()):
+                    for order in (None, 'rev', 'export+raise', 'written') + (('collapse',) if k else ()):
                         vs, nt = check_bank([mt.to_json()], order)
                         take(vs, nt, (mt.key(), order))
                 res.sample({'treebank': [model.mt_str(mt.root, mt.toks)]})
